@@ -89,7 +89,7 @@ def build_world(kind, con, mid0):
     return st
 
 
-def request_bytes(st, key):
+def request_bytes(st, key, alt=False):
     peer, mid = key
     path = {"supp": b"fast"}.get(st.kind, st.kind.encode())
     if KEYS.index(key) == 4:
@@ -98,12 +98,18 @@ def request_bytes(st, key):
     if st.kind == "supp":
         opts.append((258, b"\x1a"))
     tok = bytes([0x70 + (KEYS.index(key) % 4)])
+    if alt:
+        # the same (endpoint, message ID) under another token: a request datagram is identified by source endpoint and message
+        # ID alone, so this is a copy as well
+        tok = tok + b"\x99"
     return rc.encode((rc.CON if st.con else rc.NON, 1, mid, tok, opts, b""))
 
 
 def events_of(st):
     w = st.world
     evs = [("copy", i) for i in range(len(KEYS) if st.kind in ("slow", "slowfail") else 4)]
+    if KEYS[0] in st.model:
+        evs.append(("copy", 0, "alt"))
     if w.loop.next_timer() is not None:
         evs.append(("timer",))
     live = [m for m in st.model.values() if m["first"] + LIFETIME > w.loop.time()]
@@ -146,7 +152,7 @@ def apply(st, ev):
         fresh = m is None or now > m["first"] + LIFETIME
         tie = m is not None and abs(now - (m["first"] + LIFETIME)) < 1e-6   # exact tie with the expiry: either is fine
         before = st.calls.get(key, 0)
-        w.inject(peer, SRV, request_bytes(st, key))
+        w.inject(peer, SRV, request_bytes(st, key, alt=len(ev) > 2))
         after = st.calls.get(key, 0)
         if tie:
             fresh = after != before
